@@ -168,6 +168,72 @@ def bilin_jobs(tier):
     return js
 
 
+# ---------------------------------------------------------------- (b-sample2) specialised fetchers of pixman-fast-path.c
+A_FP_T3D = ("fastpath.*: pixman_transform_point_3d replaced by a model: returns a harness-chosen vector/verdict and records whether its argument "
+            "is the centre of the first pixel (the transform itself is property C11)")
+A_FP_RANGE = ("fastpath.*: every sample position of the scanline within +-10 pixels of a 4x3 source (the NORMAL-repeat while loops of repeat() stay "
+              "inside the unwinding bound; repeat() for every c and size is the subject of the repeat.* jobs)")
+A_FP_BLEND = ("fastpath.bilinear.*: bilinear_interpolation() is abstracted as an uninterpreted function of its six arguments with blend(0,0,0,0,.,.) == 0 "
+              "(decided: the four neighbours and two weights handed to it); the function itself: bilin.* jobs, the zero lemma: fastpath.bilinear.zero_blend")
+A_FP_SHIFT = ("fastpath.sepconv.*: --no-undefined-shift-check: (vx >> s) << s with negative vx is a left shift of a negative value (same pattern as the "
+              "known finding C08 finding.sepconv.negative_shift in pixman-bits-image.c)")
+A_FP_FLAGS = ("fastpath.*.table.*: the image flags handed to _pixman_implementation_iter_init are those of a BITS image without alpha map and accessors "
+              "under a general affine transform (no ID/SCALE/ROTATE/X_UNIT_POSITIVE/Y_UNIT_ZERO/COVER_CLIP bit), filter and repeat bits as in the job name")
+FP_KIND = {0: "nearest", 1: "bilinear", 2: "sepconv"}
+FP_FN = {0: "bits_image_fetch_nearest_affine", 1: "bits_image_fetch_bilinear_affine", 2: "bits_image_fetch_separable_convolution_affine"}
+FP_FMTS = ("a8r8g8b8", "x8r8g8b8", "a8", "r5g6b5")
+FP_CALL = {0: "worker", 1: "instance", 2: "table"}
+
+
+def fp_affine_job(kind, rep, fmt, call, w=2, cw=2, cht=1, timeout=900):
+    d = {"VC_KIND": kind, "VC_REP": rep, "VC_FMT": fmt, "VC_CALL": call, "VC_W": w}
+    flags = []
+    asm = [A_FP_T3D, A_FP_RANGE]
+    name = "fastpath.%s.%s.%s_%s" % (FP_KIND[kind], FP_CALL[call], REPN[rep], fmt)
+    fns = [FP_FN[kind], FP_FN[kind] + "_%s_%s" % (REPN[rep], fmt), "convert_" + fmt, "repeat"]
+    bound = "4x3 source, scanline width %d, positions within +-10 pixels" % w
+    if kind == 1:
+        d["VC_BLENDMODEL"] = 1
+        asm.append(A_FP_BLEND)
+    if kind == 2:
+        d["VC_CW"], d["VC_CHT"] = cw, cht
+        flags.append("--no-undefined-shift-check")
+        asm.append(A_FP_SHIFT)
+        name += ".k%dx%d" % (cw, cht)
+        bound += "; kernel %dx%d, 0 subsample bits, one-hot weights" % (cw, cht)
+    if call == 2:
+        flags += ["--unwindset", "_pixman_implementation_iter_init.0:64,_pixman_implementation_iter_init.1:64,memcmp.0:72"]
+        asm.append(A_FP_FLAGS)
+        fns += ["fast_iters[]", "_pixman_implementation_iter_init"]
+    return Job(name, "C08/fp_affine.c", defines=d, unwind=8, cbmc_flags=flags,
+               extra_sources=["harness/C19/replay_link.c"], kind="bounded", bound=bound, functions=fns,
+               domain="every stored bit of the source, every v and (ux,uy) in range, with/without mask, transform verdict, ghost pixel index",
+               timeout=timeout, min_props=6, assumptions=asm)
+
+
+def fastpath_jobs(tier):
+    th = tier != "quick"
+    js = [Job("fastpath.bilinear.zero_blend", "C08/fp_affine.c", defines={"VC_KIND": 9}, cbmc_flags=ARITH, kind="proof",
+              extra_sources=["harness/C19/replay_link.c"],
+              functions=["bilinear_interpolation"], domain="every 7-bit weight pair, four transparent pixels", timeout=300, min_props=1)]
+    combos = []
+    if th:
+        for kind in (0, 1, 2):
+            for rep in (0, 1, 2, 3):
+                for fmt in FP_FMTS:
+                    combos.append((kind, rep, fmt, 2))
+                    combos.append((kind, rep, fmt, 1))
+    else:
+        # quick: every filter x every repeat mode and every format at least once through the table; two instances directly
+        combos = [(0, 0, "r5g6b5", 2), (0, 1, "a8", 2), (0, 2, "x8r8g8b8", 2), (0, 3, "a8r8g8b8", 2),
+                  (1, 0, "x8r8g8b8", 2), (1, 1, "a8r8g8b8", 2), (1, 2, "a8", 2), (1, 3, "r5g6b5", 2),
+                  (2, 0, "a8", 2), (2, 2, "r5g6b5", 2), (2, 3, "x8r8g8b8", 2),
+                  (0, 2, "r5g6b5", 1), (1, 0, "a8r8g8b8", 1)]
+    for kind, rep, fmt, call in combos:
+        js.append(fp_affine_job(kind, rep, fmt, call))
+    return js
+
+
 def jobs(tier):
     th = tier != "quick"
     js = []
@@ -230,6 +296,7 @@ def jobs(tier):
         js.append(Job("wide.mask_skip.%s" % ("affine" if it == 0 else "general"), "C08/wide_mask.c", defines={"VC_ITER": it, "VC_W": 4},
                       unwind=6, kind="bounded", bound="scanline width 4 (unrolled); every mask content", functions=[fn, "__bits_image_fetch_" + ("affine_no_alpha" if it == 0 else "general")],
                       domain="float scanline fetcher of a transformed source with a wide mask: every 16-word mask, ghost pixel", timeout=600, min_props=2))
+    js += fastpath_jobs(tier)
     return js
 
 
